@@ -60,6 +60,8 @@ type hydWatch struct {
 	applyErrs int // "failed to apply updates to hydrated file"
 	resumed   string
 	catchUp   string
+	catchUps  int  // "catching up hydration" records of this hydration
+	livelock  bool // the goroutine kept catching up without ever reaching the position
 
 	gate    atomic.Bool
 	entered chan struct{}
@@ -140,7 +142,18 @@ func (h *hydHandler) Handle(_ context.Context, r slog.Record) error {
 	case "catching up hydration":
 		w.mu.Lock()
 		w.catchUp = attrs(r)
+		w.catchUps++
+		n := w.catchUps
 		w.mu.Unlock()
+		if n == 60 {
+			// logical step count, not a clock: the harness is blocked in awaitHydration and the
+			// primary is not writing, so the position does not move; sixty catch-up rounds
+			// without completion mean the goroutine does not converge
+			w.mu.Lock()
+			w.livelock = true
+			w.mu.Unlock()
+			w.finish(false, "60 catch-up rounds without reaching the position: "+attrs(r))
+		}
 	case "hydration complete":
 		w.finish(true, "")
 	case "hydration failed", "hydration catch-up failed", "hydration truncate failed", "hydration initialization failed, continuing without hydration":
@@ -289,8 +302,12 @@ func (h *harness) awaitHydration(v *view) bool {
 	}
 	_, completed, failed, _, _ := w.state()
 	w.mu.Lock()
-	resumed, catchUp := w.resumed, w.catchUp
+	resumed, catchUp, livelock := w.resumed, w.catchUp, w.livelock
 	w.mu.Unlock()
+	if livelock {
+		h.res.Evals++
+		h.res.Violate("hydration-does-not-converge", "%s view: the hydration goroutine ran 60 catch-up rounds while the replica was not changing and never reached the view's position (last: %s): the hydrated copy never completes and the goroutine spins [%s]", v.label, catchUp, h.s.Cfg)
+	}
 	h.e.Logf("%s view hydration finished: complete=%v %s resumed=%q catch-up=%q", v.label, completed, failed, resumed, catchUp)
 	if completed {
 		// the copy is restored (or caught up) to the position the goroutine saw when it started
